@@ -11,6 +11,7 @@ AST (tuples):
              ("rangeint", label, x, e, body) ("rangearr", label, i, v, e, T, body) ("switch", tag|None, [(vals|None, body, fallthrough)])
              ("break", label|None) ("continue", label|None) ("return", [e]) ("expr", call) ("defer", call) ("gowait", call)
              ("panic", e) ("print", [e]) ("goexit",) ("block", [stmt]) ("calls", [x...], call)  (multi-value call)
+             ("label", L) ("goto", L) ("typeswitch", x, e, [(dyn|"nil", T, body)], default_body|None)
              ("recover", x) ("rangefunc", label, [x...], seq_expr, body)   (for x... := range seq_expr; desugared for the machine)
   expr     : ("int", n) ("bool", b) ("str", s) ("nil",) ("var", x) ("bin", op, a, b) ("not", a) ("neg", a) ("field", e, f)
              ("index", e, i) ("len", e) ("deref", e) ("addr", lv) ("call", callee, [args]) ("funclit", func)
@@ -218,6 +219,22 @@ class Render:
                 if ft:
                     L("\tfallthrough")
             L("}")
+        elif k == "typeswitch":
+            _, x, e, cases, dflt = s
+            L("switch %s := %s.(type) {" % (x, self.expr(e)))
+            for dyn, t, body in cases:
+                L("case %s:" % ("nil" if dyn == "nil" else gotype(t)))
+                L("\t_ = %s" % x)
+                self.block(body, ind + 1)
+            if dflt is not None:
+                L("default:")
+                L("\t_ = %s" % x)
+                self.block(dflt, ind + 1)
+            L("}")
+        elif k == "label":
+            self.line(max(ind - 1, 0), s[1] + ":")
+        elif k == "goto":
+            L("goto " + s[1])
         elif k == "break":
             L("break" + (" " + s[1] if s[1] else ""))
         elif k == "continue":
@@ -448,6 +465,8 @@ class RangeFuncDesugar:
             return [("switch", s[1], [(vals, self.stmts(body), ft) for vals, body, ft in s[2]])]
         if k == "block":
             return [("block", self.stmts(s[1]))]
+        if k == "typeswitch":
+            return [("typeswitch", s[1], s[2], [(d, t, self.stmts(b)) for d, t, b in s[3]], None if s[4] is None else self.stmts(s[4]))]
         if k == "rangefunc":
             return self.expand(s[1], s[2], s[3], self.stmts(s[4]))
         return [s]
@@ -499,6 +518,9 @@ class RangeFuncDesugar:
                     out.append(("switch", s[1], [(vals, tr(b, inner, True, in_loop), ft) for vals, b, ft in s[2]]))
                 elif k == "block":
                     out.append(("block", tr(s[1], inner, in_break, in_loop)))
+                elif k == "typeswitch":
+                    out.append(("typeswitch", s[1], s[2], [(d, t, tr(b, inner, True, in_loop)) for d, t, b in s[3]],
+                                None if s[4] is None else tr(s[4], inner, True, in_loop)))
                 else:
                     out.append(s)
             return out
@@ -520,6 +542,8 @@ class FuncLower:
         self.loops = []     # (label, break_patch_list, continue_patch_list)
         self.declared = set(x for x, _ in f["params"]) | set(x for x, _ in f["results"])
         self.used = set()
+        self.labels = {}     # label -> pc
+        self.gotos = []      # (instruction index, label)
 
     def emit(self, ins):
         self.code.append(ins)
@@ -530,6 +554,8 @@ class FuncLower:
 
     def run(self):
         self.block(RangeFuncDesugar(self.L, self.f).run())
+        for i, lab in self.gotos:
+            self.code[i - 1][1] = self.labels[lab]
         return self.code
 
     # ---- expressions: returns a pure machine expression, emitting instructions for calls / closures
@@ -550,6 +576,8 @@ class FuncLower:
             return [k, self.ex(e[1])]
         if k == "isnil":
             return ["isnil", self.ex(e[1])]
+        if k == "ifacedyn":
+            return ["ifacedyn", self.ex(e[1])]
         if k == "field":
             return ["field", self.ex(e[1]), e[2]]
         if k == "index":
@@ -796,6 +824,31 @@ class FuncLower:
             else:
                 rec = self.find_loop(s[1])
             rec[2].append(self.emit(["jmp", None]))
+        elif k == "typeswitch":
+            _, x, e, cases, dflt = s
+            t = self.L.temp()
+            self.declared |= {t, x}
+            self.emit(["decl", t, self.ex(e)])
+            self.loops.append(("$switch", [], None))
+            sw = self.loops[-1]
+            for dyn, ty, body in cases:
+                jz = self.emit(["jz", ["bin", "==", ["ifacedyn", ["var", t]], ["str", dyn]], None])
+                # in a single-type case the variable has that type; in `case nil` it keeps the interface type
+                self.emit(["decl", x, ["var", t] if dyn == "nil" else ["assert", ["var", t], dyn]])
+                self.block(body)
+                sw[1].append(self.emit(["jmp", None]))
+                self.code[jz - 1][2] = self.here()
+            if dflt is not None:
+                self.emit(["decl", x, ["var", t]])
+                self.block(dflt)
+            self.loops.pop()
+            end = self.here()
+            for i in sw[1]:
+                self.code[i - 1][1] = end
+        elif k == "label":
+            self.labels[s[1]] = self.here()
+        elif k == "goto":
+            self.gotos.append((self.emit(["jmp", None]), s[1]))
         elif k == "return":
             self.emit(["ret", [self.ex(x) for x in s[1]]])
         elif k == "expr":
